@@ -158,6 +158,34 @@ MUTANTS["m47_simplify_removes_initial"] = (["C03"], [(SIMP, "if state.has_no_tra
     "simplify removes the initial state of an empty rule set too")
 MUTANTS["m48_inline_any_narrower"] = (["C01", "C03"], [(CG, "            if states[*next_state].predecessors.len() == 1 {\n                generate_state(ctx, *next_state, &states[*next_state], states)", "            if states[*next_state].predecessors.len() == 1 && states[*next_state].accepting.is_empty() {\n                generate_state(ctx, *next_state, &states[*next_state], states)")],
     "the `_` successor is inlined under a narrower condition than the one that omits its arm")
+MUTANTS["m49_diff_operands_swapped"] = (["C11"], [(R2N, """            let mut map1 = regex_to_range_map(bindings, re1);
+            let map2 = regex_to_range_map(bindings, re2);
+            map1.remove_ranges(&map2);""", """            let mut map1 = regex_to_range_map(bindings, re2);
+            let map2 = regex_to_range_map(bindings, re1);
+            map1.remove_ranges(&map2);""")], "`a # b` computes b minus a")
+MUTANTS["m50_plus_with_skip_edge"] = (["C02"], [(R2N, """            nfa.add_empty_transition(current, re_init);
+            nfa.add_empty_transition(re_cont, cont);
+            nfa.add_empty_transition(re_cont, re_init);
+        }
+
+        Regex::ZeroOrOne""", """            nfa.add_empty_transition(current, re_init);
+            nfa.add_empty_transition(current, cont);
+            nfa.add_empty_transition(re_cont, cont);
+            nfa.add_empty_transition(re_cont, re_init);
+        }
+
+        Regex::ZeroOrOne""")], "`+` also matches the empty string")
+MUTANTS["m51_opt_without_skip"] = (["C02"], [(R2N, """            add_re(nfa, bindings, re, re_init, cont);
+            nfa.add_empty_transition(current, cont);
+            nfa.add_empty_transition(current, re_init);""", """            add_re(nfa, bindings, re, re_init, cont);
+            nfa.add_empty_transition(current, re_init);""")], "`?` requires its operand")
+MUTANTS["m52_set_range_ends_swapped"] = (["C02"], [(R2N, "nfa.add_range_transition(current, *range_start, *range_end, cont);", "nfa.add_range_transition(current, *range_end, *range_start, cont);")],
+    "a range inside a set is added as (end, start)")
+MUTANTS["m53_nfa_any_written_to_eoi_field"] = (["C02"], [("crates/lexgen/src/nfa.rs", "let not_exists = self.states[state.0].any_transitions.insert(next);", "let not_exists = self.states[state.0].end_of_input_transitions.insert(next);")],
+    "NFA::add_any_transition stores the edge among the end-of-input edges")
+MUTANTS["m54_concat_operands_swapped"] = (["C02"], [(R2N, """            add_re(nfa, bindings, re1, current, re1_cont);
+            add_re(nfa, bindings, re2, re1_cont, cont);""", """            add_re(nfa, bindings, re2, current, re1_cont);
+            add_re(nfa, bindings, re1, re1_cont, cont);""")], "concatenation in reverse order")
 REVERTS = {
     "r01_revert_F1": ("1a68785", ["C01", "C12"]),
     "r02_revert_F2": ("551ccb8", ["C04", "C12"]),
@@ -262,6 +290,50 @@ BENIGN = {
         (CG, "        let next = if states[next_state].predecessors.len() == 1 {", "        let next = if single_pred(&states[next_state]) {"),
         (CG, "fn generate_any_transition(", "fn single_pred(state: &State<Trans<SemanticActionIdx>, SemanticActionIdx>) -> bool {\n    state.predecessors.len() == 1\n}\n\nfn generate_any_transition("),
     ], "the inlining test moved into a helper used by the three transition generators"),
+    "b15_or_second_init_chained": ([(R2N, """            nfa.add_empty_transition(current, re1_init);
+            nfa.add_empty_transition(current, re2_init);""", """            nfa.add_empty_transition(current, re1_init);
+            nfa.add_empty_transition(re1_init, re2_init);""")], "alternation: the second alternative's start is reached through the first one's (same language, same interface)"),
+    "b16_star_exit_from_re_init": ([(R2N, """            nfa.add_empty_transition(current, cont);
+            nfa.add_empty_transition(current, re_init);
+            nfa.add_empty_transition(re_cont, cont);
+            nfa.add_empty_transition(re_cont, re_init);""", """            nfa.add_empty_transition(current, re_init);
+            nfa.add_empty_transition(re_init, cont);
+            nfa.add_empty_transition(re_cont, re_init);""")], "a different but correct construction for `*`"),
+    "b17_string_by_index": ([(R2N, """            let mut iter = str.chars().peekable();
+            let mut current = current;
+            while let Some(char) = iter.next() {
+                let next = if iter.peek().is_some() {
+                    nfa.new_state()
+                } else {
+                    cont
+                };
+                nfa.add_char_transition(current, char, next);
+                current = next;
+            }""", """            let chars: Vec<char> = str.chars().collect();
+            let mut current = current;
+            for (i, char) in chars.iter().enumerate() {
+                let next = if i + 1 == chars.len() {
+                    cont
+                } else {
+                    nfa.new_state()
+                };
+                nfa.add_char_transition(current, *char, next);
+                current = next;
+            }""")], "string literals expanded by index instead of peeking"),
+    "b18_var_lookup_by_index": ([(R2N, """            let re = bindings
+                .get(var)
+                .unwrap_or_else(|| panic!("Unbound variable {:?}", var.0));
+
+            add_re(nfa, bindings, re, current, cont);""", """            let re = &bindings[var];
+
+            add_re(nfa, bindings, re, current, cont);""")], "variable lookup by indexing"),
+    "b19_or_epsilon_cycle_through_current": ([(R2N, """            add_re(nfa, bindings, re2, re2_init, cont);
+            nfa.add_empty_transition(current, re1_init);
+            nfa.add_empty_transition(current, re2_init);""", """            add_re(nfa, bindings, re2, re2_init, cont);
+            nfa.add_empty_transition(current, re1_init);
+            nfa.add_empty_transition(re1_init, re2_init);
+            nfa.add_empty_transition(re2_init, current);""")],
+        "alternation with an empty-transition cycle current -> re1_init -> re2_init -> current: breaks the closed-fragment discipline but not the language in any context (the cycle's states are all reachable from `current` without input anyway); R-THOMPSON must fall back to composing the templates and stay silent"),
     "b08_eoi_action_block": ([(CG, "        self.0.__done = true; // don't handle end-of-input again\n        #end_of_input_action", "        self.0.__done = true;\n        { #end_of_input_action }")], "extra block around the end-of-input action"),
     "b09_generator_match_style": ([(GEN, """        } else if let Some(range) = current_range.take() {
             ranges.push(range);
